@@ -317,6 +317,42 @@ func Known(name string) bool { return deriveContains(xbase.Names, name) }
 func First() string { return deriveMin(xbase.Sorted, "") }
 `
 
+// a package whose ONLY derive call waits for a function generated for the imported package (F74)
+const xonly = `package xonly
+
+import "ambig/xbase"
+
+var SortedNames = deriveSort(xbase.Names)
+`
+
+// history pair: htop compares / hashes / copies hbase.Item field by field; the C08 check later adds a field to
+// hbase.Item and regenerates htop with the same arguments
+const hbase = `package hbase
+
+type Item struct {
+	Name string
+	Tags []string
+	// FIELDS
+}
+`
+
+const htop = `package htop
+
+import "ambig/hbase"
+
+type Order struct {
+	First hbase.Item
+	Rest  []hbase.Item
+	Ptr   *hbase.Item
+}
+
+func Eq(a, b *Order) bool  { return deriveEqual(a, b) }
+func Cmp(a, b *Order) int  { return deriveCompare(a, b) }
+func H(a *Order) uint64    { return deriveHash(a) }
+func Copy(dst, src *Order) { deriveDeepCopy(dst, src) }
+func Str(a *Order) string  { return deriveGoString(a) }
+`
+
 // derive calls that occur only in an in-package test file, next to a nested call that forces a second pass
 const testonly = `package testonly
 
@@ -596,6 +632,9 @@ func main() {
 	add("usesdep", "uses-test-augmented-dependency", "ok", usesdep)
 	add("xbase", "flow-base", "ok", xbase)
 	add("xtop", "flow-top", "any", xtop)
+	add("xonly", "flow-top", "any", xonly)
+	add("hbase", "history-base", "ok", hbase)
+	add("htop", "history-top", "ok", htop)
 	add("testonly", "calls-only-in-test-file-and-second-pass", "ok", testonly)
 	write("testonly/testonly_test.go", testonlyTest)
 	add("testonly2", "calls-only-in-test-file-and-second-pass", "ok", strings.Replace(testonly, "package testonly", "package testonly2", 1))
